@@ -109,6 +109,16 @@ def create_marker_cache_from_specified_markers(
     those markers will just be dropped and a warning issued
     """
 
+    # markers as listed by the user (validate_marker_lookup may replace
+    # a list with genes borrowed from ancestor nodes, dropping any gene
+    # that is not in the query set)
+    all_listed_markers = set()
+    for parent_node in marker_lookup:
+        if parent_node in ('metadata', 'log'):
+            continue
+        all_listed_markers = all_listed_markers.union(
+            set(marker_lookup[parent_node]))
+
     # check that all non-trivial parent nodes will have more than
     # zero marker genes assigned to them
     if taxonomy_tree is not None:
@@ -164,6 +174,9 @@ def create_marker_cache_from_specified_markers(
             marker_set-query_gene_set)
         missing_reference_markers = missing_reference_markers.union(
             marker_set-reference_gene_set)
+
+    missing_reference_markers = missing_reference_markers.union(
+        all_listed_markers-reference_gene_set)
 
     if len(missing_reference_markers) > 0:
         missing_reference_markers = list(missing_reference_markers)
